@@ -161,6 +161,28 @@ impl<'a> Walk<'a> {
             Err(e) => self.vio("fifty-move-panic", e),
             _ => {}
         }
+        // the dead-material verdict of a position reached by moves (whatever was captured on the way)
+        let (mut minors, mut others) = (0, 0);
+        for x in r.board.iter().flatten() {
+            match x.1 {
+                crate::refchess::Kind::N | crate::refchess::Kind::B => minors += 1,
+                crate::refchess::Kind::K => {}
+                _ => others += 1,
+            }
+        }
+        if let Ok(v) = catch(|| g.is_stalemate_by_insufficient_material()) {
+            if others == 0 && minors <= 1 {
+                bump(&mut self.c, "material_must_be_draw");
+                if !v {
+                    self.vio("material-rule", format!("bare kings / king and minor v king reached by moves, not declared insufficient ({})", r.to_fen()));
+                }
+            } else if others > 0 || minors > 2 {
+                bump(&mut self.c, "material_must_not_be_draw");
+                if v {
+                    self.vio("material-rule", format!("declared insufficient with a pawn, rook or queen on the board or more than two minors ({})", r.to_fen()));
+                }
+            }
+        }
     }
 
     fn push_ref(&mut self, p: Pos, irreversible: bool) {
@@ -469,6 +491,45 @@ pub fn rook_cycle_script(p: usize, q: usize, plies: usize, siblings: bool) -> (S
         pos = pos.apply(rm);
         assert!(!pos.in_check(pos.side), "rook cycle script: check after {mv}");
         ops.push(mv);
+    }
+    (seed, ops)
+}
+
+/// Capture histories from far outside normal material: `n` white men of kind `fodder` stand on a2, a3, ..; a black rook
+/// (or queen) starts on the square above them and eats its way down the file, one capture per move, while the white
+/// king shuffles between h1 and g1; the black king sits on h8. Everything is captured in the end.
+pub fn eat_script(n: usize, fodder: char, eater: char) -> (String, Vec<String>) {
+    let mut rows: Vec<String> = vec!["7k".to_string(); 1];
+    rows[0] = "7k".to_string();
+    // ranks 8 .. 1
+    let mut ranks: Vec<String> = vec![];
+    for rank in (1..=8usize).rev() {
+        let a = if rank >= 2 && rank <= n + 1 {
+            Some(fodder)
+        } else if rank == n + 2 {
+            Some(eater)
+        } else {
+            None
+        };
+        let mut r = String::new();
+        match (a, rank) {
+            (Some(c), 8) => r = format!("{c}6k"),
+            (Some(c), 1) => r = format!("{c}6K"),
+            (Some(c), _) => r = format!("{c}7"),
+            (None, 8) => r = "7k".to_string(),
+            (None, 1) => r = "7K".to_string(),
+            (None, _) => r = "8".to_string(),
+        }
+        ranks.push(r);
+    }
+    let seed = format!("{} b - - 0 1", ranks.join("/"));
+    let mut ops = vec![];
+    let mut wk_on_h = true;
+    for k in 0..n {
+        let from = n + 2 - k;
+        ops.push(format!("a{}a{}", from, from - 1));
+        ops.push(if wk_on_h { "h1g1".to_string() } else { "g1h1".to_string() });
+        wk_on_h = !wk_on_h;
     }
     (seed, ops)
 }
